@@ -58,6 +58,10 @@ def run(rep, idx, tier):
         if cat_mode is None:
             return
         slices.add((c.parse("self.element.r_data"), next(iter(sl))) if len(sl) == 1 else (c.parse("self.element.r_data"), ('slice', ('const', 0), ('const', 0), ('const', 1))))
+    if not sl and (c.t.lists or any(ir.show(c.norm(d_.target)).startswith("Cat(") for d_ in c.t.drivers)):
+        rep.unk("C11.2", site, "one slice for read and write data", "no driver reads or writes a slice of element.r_data / element.w_data directly: "
+                "the parts are collected in lists and connected through Cat(...); the rule does not follow that form")
+        return
     if len(sl) != 1:
         rep.bad("C11.2", site, "one slice for read and write data", f"element.r_data / element.w_data are indexed with {len(sl)} different slices: "
                 + ", ".join(ir.show(s) for s in sl))
